@@ -316,7 +316,17 @@ def judge(case, o, m):
                 # the first-order terms nearly cancel the second-order term is all there is).
                 # Sample std of 10000 draws: 6/sqrt(2N) = 4.3 %.
                 eps = _nonlin(ob["model"], api["params"], bnd["xs"][i])
-                if eps <= 0.05 and abs(half - err) > 0.10 * err + 2 * eps * eps * abs(y) + REL * sc:
+                # The statement fixes the CURVE, not the width of the band; for models that are
+                # non-linear in their parameters the Monte Carlo standard deviation legitimately
+                # differs from the first-order uncertainty (a thorough-tier run met a Gaussian tail
+                # point with 40 % although eps was small: the first-order terms nearly cancel
+                # there), so only a gross mismatch is judged for them.
+                nonlinear = ob["model"] in ("exponential", "gaussian", "custom")
+                if nonlinear:
+                    bad = eps <= 0.05 and err > REL * sc and not (0.25 * err <= half <= 4.0 * err)
+                else:
+                    bad = abs(half - err) > 0.10 * err + REL * sc
+                if bad:
                     fail("fitband:width", "fit band half-width at x={!r} is {!r}, "
                          "fit_function(x).error is {!r}".format(bnd["xs"][i], half, err), indep=True,
                          impl=half, expected=err, clause="band = y +/- err (statistical)")
